@@ -56,7 +56,7 @@ Silent == /\ \/ SchedStart
                                  \/ WorkerTimeoutFire(o) \/ WorkerGone(o)
           /\ Keep
 Advance == /\ l <= Len(T) /\ T[l].t > now /\ ~ENABLED Urgent
-           /\ now' = T[l].t /\ UNCHANGED <<vars, tid, l>>
+           /\ now' = now + 1 /\ UNCHANGED <<vars, tid, l>>
 
 TStep == TWire \/ TNew \/ TPut \/ TGet \/ TTimeout \/ TBegin \/ TEnd \/ TExit \/ TDepl \/ TClose \/ TQuiet
          \/ Silent \/ Advance
